@@ -72,6 +72,39 @@ def gen(ctx: common.Ctx, n_hist: int, steps: tuple[int, int], all_configs: bool,
                    "_k": ("x" if explore else "core" if ctx.tier == "quick" else "tcore") + str(k), "_ops": h["ops"], "_cfg": cfg, "_skip": skip}
 
 
+def gen_appear(ctx: common.Ctx) -> Iterator[dict[str, Any]]:
+    """Deterministic matrix: a module / package the importer could not find appears, disappears and appears again while the
+    importer itself is never edited (import form x kind of thing that appears x follow_imports x with/without ignore)."""
+    forms = {"from-pkg-import-sub": "from pk import sub{ign}\nsub.f('x')\nreveal_type(sub.f)\n",
+             "import-pkg.sub": "import pk.sub{ign}\npk.sub.f('x')\nreveal_type(pk.sub.f)\n",
+             "from-pkg.sub-import-name": "from pk.sub import f{ign}\nf('x')\nreveal_type(f)\n",
+             "import-pkg": "import pk{ign}\nreveal_type(pk)\npk.g('x')\n",
+             "from-pkg-import-name": "from pk import g{ign}\ng('x')\nreveal_type(g)\n"}
+    sub = "def f(x: int) -> int:\n    return x\nbad: int = ''\n"
+    init = "def g(x: int) -> int:\n    return x\n"
+    kinds = {"package": {"pk/__init__.py": init, "pk/sub.py": sub},
+             "stub-package": {"pk/__init__.pyi": "def g(x: int) -> int: ...\n", "pk/sub.pyi": "def f(x: int) -> int: ...\n"},
+             "namespace-package": {"pk/sub.py": sub},
+             "module": {"pk.py": init + "class sub:\n    @staticmethod\n    def f(x: int) -> int:\n        return x\n"}}
+    k = 0
+    for form, text in forms.items():
+        for kind, files in kinds.items():
+            for follow in ("normal", "silent", "skip", "error"):
+                for ign in ("", "  # type: ignore"):
+                    base = {"main.py": text.format(ign=ign), "other.py": "import main\nx: int = ''\n"}
+                    full = dict(base, **files)
+                    versions = [base, full, base, full]
+                    if kind == "package":
+                        versions.append(dict(base, **{"pk/__init__.py": init}))   # the sub-module alone disappears
+                    cfg = list(CONFIGS)[(k + k // 8) % 4]
+                    k += 1
+                    flags = ["--namespace-packages"] + ([] if follow == "normal" else [f"--follow-imports={follow}"])
+                    yield {"fn": "vlib.tasks.incr:run_history",
+                           "args": {"versions": versions, "flags": flags, "targets": ["main.py", "other.py"], "config": cfg},
+                           "_k": f"appear:{form}:{kind}:{follow}:{'ignore' if ign else 'plain'}", "_ops": [["init"]] + [["add_module"], ["delete_module"]] * 3,
+                           "_cfg": cfg, "_skip": []}
+
+
 def gen_corpus(ctx: common.Ctx, n: int) -> Iterator[dict[str, Any]]:
     from checks.c20 import clean_flags
     cases = [c for c in corpus.load(["check-incremental.test", "fine-grained*.test"])
@@ -113,9 +146,11 @@ def run(ctx: common.Ctx) -> None:
         with Pool(env=env) as pool:
             only = os.environ.get("VERIF_ONLY")   # triage aid: "explore" or "core"
             streams = []
-            if only != "explore":
-                streams += [gen(ctx, n_hist - n_hist // 3, steps, all_configs=not quick), gen_corpus(ctx, n_corpus)]
-            if only != "core":
+            if only == "appear":
+                streams += [gen_appear(ctx)]
+            elif only != "explore":
+                streams += [gen(ctx, n_hist - n_hist // 3, steps, all_configs=not quick), gen_corpus(ctx, n_corpus), gen_appear(ctx)]
+            if only not in ("core", "appear"):
                 streams += [gen(ctx, n_hist // 3, steps, all_configs=False, explore=True)]
             if only:
                 ctx.floor_nontrivial, ctx.floor_evaluations = 2, 2
